@@ -1099,3 +1099,225 @@ Proof.
   repeat split; try reflexivity; try (unfold max_nsamp; lia).
   repeat constructor; cbn; unfold max_nsamp; lia.
 Qed.
+
+(* ---------- from the per-block judgements to whole-epoch statements, for ANY observed history ---------- *)
+
+(* generic: a predicate J on the checker's state that every block re-establishes (given the block's judgement P)
+   and every control operation establishes from scratch *)
+Section AnnotateInd.
+Variable F0 : Z.
+Variable J : sstate -> Prop.
+Variables P Q : binfo -> Prop.
+Hypothesis J_block : forall s sg recs,
+  let b := mkbi (s_npre s) (s_nsamp s) (s_ts s) F0 (s_G s ++ seg_data sg) sg (s_S s) (s_epoch s) (s_all s) recs in
+  seg_first sg = F0 + zlen (s_G s) -> J s -> P b ->
+  Q b /\ J (mkss (s_npre s) (s_nsamp s) (s_ts s) (s_G s ++ seg_data sg) (s_S s)
+                 (s_epoch s ++ map r_frame recs) (s_all s ++ map r_frame recs)).
+Hypothesis J_epoch : forall s npre nsamp ts, J (new_epoch F0 s npre nsamp ts).
+
+Lemma annotate_ind : forall h s bs,
+  annotate F0 s h = Some bs -> J s -> (forall b, In b bs -> P b) -> forall b, In b bs -> Q b.
+Proof.
+  induction h as [|[o ob] h IH]; intros s bs Ha HJ HP b Hb.
+  - inversion Ha; subst. destruct Hb.
+  - destruct o as [sg|ts|nsamp npre]; destruct ob as [recs n f|err|]; cbn [annotate] in Ha; try discriminate.
+    + destruct (seg_first sg =? F0 + zlen (s_G s)) eqn:Ef; [|discriminate]. apply Z.eqb_eq in Ef.
+      destruct (annotate F0 _ h) as [bs'|] eqn:Ea; [|discriminate]. injection Ha as Ha. subst bs.
+      destruct (J_block s sg recs Ef HJ (HP _ (or_introl eq_refl))) as [HQ HJ'].
+      destruct Hb as [<-|Hb]; [exact HQ|].
+      eapply (IH _ _ Ea HJ'); [|exact Hb]. intros b' Hb'. apply HP. now right.
+    + destruct err; [discriminate|]. eapply (IH _ _ Ha); [apply J_epoch|exact HP|exact Hb].
+    + destruct err; (eapply (IH _ _ Ha); [apply J_epoch|exact HP|exact Hb]).
+Qed.
+End AnnotateInd.
+
+(* successive elements at least / at most d apart *)
+Definition chain_ge (d : Z) (l : list Z) : Prop := match l with [] => True | t :: l' => gaps_ge d t l' end.
+
+Lemma gaps_ge_app d x l1 l2 :
+  gaps_ge d x l1 -> gaps_ge d (match rev l1 with [] => x | q :: _ => q end) l2 -> gaps_ge d x (l1 ++ l2).
+Proof.
+  revert x. induction l1 as [|y l1 IH]; intros x H1 H2; cbn [app]; [exact H2|].
+  cbn [gaps_ge] in *. destruct H1 as [Hy H1]. split; [exact Hy|]. apply IH; [exact H1|].
+  cbn [rev] in H2. destruct (rev l1) as [|q r]; exact H2.
+Qed.
+
+Lemma gaps_le_app d x l1 l2 :
+  gaps_le d x l1 -> gaps_le d (match rev l1 with [] => x | q :: _ => q end) l2 -> gaps_le d x (l1 ++ l2).
+Proof.
+  revert x. induction l1 as [|y l1 IH]; intros x H1 H2; cbn [app]; [exact H2|].
+  cbn [gaps_le] in *. destruct H1 as [Hy H1]. split; [exact Hy|]. apply IH; [exact H1|].
+  cbn [rev] in H2. destruct (rev l1) as [|q r]; exact H2.
+Qed.
+
+(* edge only: ALL successive triggers of the epoch so far are at least nsamp apart *)
+Lemma no_overlap_epoch F0 h s bs :
+  annotate F0 s h = Some bs -> s_epoch s = [] -> (forall b, In b bs -> no_overlap b) ->
+  forall b, In b bs -> only_edge b = true -> chain_ge (bi_nsamp b) (epoch_trigs b).
+Proof.
+  intros Ha He HP.
+  apply (annotate_ind F0 (fun s => ts_edge (s_ts s) && negb (ts_level (s_ts s)) && negb (ts_auto (s_ts s)) = true ->
+                                   chain_ge (s_nsamp s) (s_epoch s)) no_overlap
+                      (fun b => only_edge b = true -> chain_ge (bi_nsamp b) (epoch_trigs b))) with (h := h) (s := s); try assumption.
+  - intros s0 sg recs b _ HJ Hno.
+    assert (HQ : only_edge b = true -> chain_ge (bi_nsamp b) (epoch_trigs b)).
+    { intros Hoe. specialize (Hno Hoe). specialize (HJ Hoe). unfold epoch_trigs. change (bi_prev b) with (s_epoch s0) in *.
+      change (bi_nsamp b) with (s_nsamp s0) in *.
+      destruct (s_epoch s0) as [|t l] eqn:El; cbn [rev app] in *.
+      - destruct (trigs b); [exact I|exact Hno].
+      - cbn [chain_ge] in *. apply gaps_ge_app; [exact HJ|].
+        destruct (rev l ++ [t]) as [|q r] eqn:Er; [destruct (rev l); discriminate|].
+        destruct (rev l) as [|q' r']; cbn [app] in Er; inversion Er; subst; exact Hno. }
+    split; [exact HQ|]. cbn [s_ts s_nsamp s_epoch]. exact HQ.
+  - intros s0 npre nsamp ts _. exact I.
+  - intros _. rewrite He. exact I.
+Qed.
+
+(* auto on, no veto: the whole chain first candidate -> triggers of the epoch so far has no gap above the bound *)
+Lemma auto_gap_epoch F0 h s bs :
+  annotate F0 s h = Some bs -> s_epoch s = [] -> (forall b, In b bs -> auto_gap b) ->
+  forall b, In b bs -> auto_free b = true ->
+    gaps_le (auto_bound b) (first_cand b) (epoch_trigs b) /\
+    (first_cand b < dec_end b -> dec_end b - 1 - chain_last b <= auto_bound b).
+Proof.
+  intros Ha He HP.
+  apply (annotate_ind F0 (fun s => ts_auto (s_ts s) && (ts_autoveto (s_ts s) <=? 0) = true ->
+                                   gaps_le (Z.max (ts_autodelay (s_ts s)) (s_nsamp s) + s_nsamp s) (s_S s + s_npre s) (s_epoch s))
+                      auto_gap
+                      (fun b => auto_free b = true ->
+                                gaps_le (auto_bound b) (first_cand b) (epoch_trigs b) /\
+                                (first_cand b < dec_end b -> dec_end b - 1 - chain_last b <= auto_bound b))) with (h := h) (s := s); try assumption.
+  - intros s0 sg recs b _ HJ Hag.
+    assert (HQ : auto_free b = true -> gaps_le (auto_bound b) (first_cand b) (epoch_trigs b)).
+    { intros Haf. destruct (Hag Haf) as [H1 _]. specialize (HJ Haf). unfold epoch_trigs.
+      apply gaps_le_app; [exact HJ|]. unfold chain_start in H1. exact H1. }
+    split.
+    + intros Haf. split; [exact (HQ Haf)|]. destruct (Hag Haf) as [_ H2]. exact H2.
+    + cbn [s_ts s_nsamp s_epoch s_S s_npre]. exact HQ.
+  - intros s0 npre nsamp ts _. exact I.
+  - intros _. rewrite He. exact I.
+Qed.
+
+(* completeness: from "the candidates that became decidable with each block are accounted for" (what the checker
+   evaluates) to "every decidable candidate of the epoch so far is" — for any observed history of a channel with
+   constant signedness in which the record lengths in force satisfy 0 <= npre <= nsamp *)
+Section CompleteInd.
+Variables (F0 : Z) (sgn : bool).
+
+Definition lens_ok (b : binfo) : Prop := 0 <= bi_npre b <= bi_nsamp b /\ seg_signed (bi_seg b) = sgn.
+
+Definition SInv (s : sstate) : Prop :=
+  0 <= s_npre s <= s_nsamp s ->
+  (ts_edge (s_ts s) = true -> forall k, s_S s + s_npre s <= k < s_A F0 s ->
+     edge_crit (cur F0 sgn s) k = true -> acc_edge (s_all s) (s_nsamp s) k) /\
+  (ts_level (s_ts s) = true -> forall k, s_S s + s_npre s <= k < s_A F0 s ->
+     level_crit (cur F0 sgn s) k = true -> acc_level (s_all s) (s_nsamp s) k).
+
+Lemma complete_from_new h s bs :
+  annotate F0 s h = Some bs -> SInv s ->
+  (forall b, In b bs -> lens_ok b /\ edge_complete_new b /\ level_complete_new b) ->
+  forall b, In b bs -> edge_complete b /\ level_complete b.
+Proof.
+  intros Ha HJ HP.
+  apply (annotate_ind F0 SInv (fun b => lens_ok b /\ edge_complete_new b /\ level_complete_new b)
+                      (fun b => edge_complete b /\ level_complete b)) with (h := h) (s := s); try assumption.
+  - intros s0 sg recs b Hf HJ0 [[Hlen Hsg] [HEn HLn]].
+    change (bi_npre b) with (s_npre s0) in Hlen. change (bi_nsamp b) with (s_nsamp s0) in Hlen.
+    change (seg_signed (bi_seg b)) with (seg_signed sg) in Hsg.
+    destruct (HJ0 Hlen) as [HE0 HL0].
+    pose proof (zlen_nonneg (seg_data sg)) as Hnn.
+    assert (Hnl : new_lo b = s_A F0 s0).
+    { unfold new_lo, first_cand, s_A, s_end. cbn [bi_S bi_npre bi_nsamp bi_seg b]. rewrite Hf. reflexivity. }
+    assert (Hdec : dec_end b = s_end F0 s0 + zlen (seg_data sg) - (s_nsamp s0 - s_npre s0)).
+    { unfold dec_end, bi_end, s_end. cbn [bi_F0 bi_G bi_nsamp bi_npre b]. rewrite zlen_app. lia. }
+    assert (HEC : edge_complete b).
+    { intros Hte k [Hk1 Hk2] Hck. destruct (Z.lt_ge_cases k (s_A F0 s0)) as [HkA|HkA].
+      - assert (Hke : k < s_end F0 s0) by (unfold s_A in HkA; change (first_cand b) with (s_S s0 + s_npre s0) in Hk1; lia).
+        assert (Hck' : edge_crit (cur F0 sgn s0) k = true).
+        { rewrite <- Hck. symmetry. apply (edge_crit_ext (cur F0 sgn s0) b (seg_data sg)); try reflexivity.
+          - cbn. exact Hsg.
+          - cbn. unfold s_end in Hke. lia. }
+        destruct (HE0 Hte k ltac:(split; [exact Hk1|exact HkA]) Hck') as [t [Ht Hr]].
+        exists t. split; [unfold all_trigs; apply in_or_app; now left|exact Hr].
+      - apply HEn; [exact Hte|rewrite Hnl; lia|exact Hck]. }
+    assert (HLC : level_complete b).
+    { intros Hte k [Hk1 Hk2] Hck. destruct (Z.lt_ge_cases k (s_A F0 s0)) as [HkA|HkA].
+      - assert (Hke : k < s_end F0 s0) by (unfold s_A in HkA; change (first_cand b) with (s_S s0 + s_npre s0) in Hk1; lia).
+        assert (Hck' : level_crit (cur F0 sgn s0) k = true).
+        { rewrite <- Hck. symmetry. apply (level_crit_ext (cur F0 sgn s0) b (seg_data sg)); try reflexivity.
+          - cbn. exact Hsg.
+          - cbn. unfold s_end in Hke. lia. }
+        destruct (HL0 Hte k ltac:(split; [exact Hk1|exact HkA]) Hck') as [t [Ht Hr]].
+        exists t. split; [unfold all_trigs; apply in_or_app; now left|exact Hr].
+      - apply HLn; [exact Hte|rewrite Hnl; lia|exact Hck]. }
+    split; [split; assumption|].
+    intros _. set (s' := mkss _ _ _ _ _ _ _).
+    assert (HA' : s_A F0 s' = Z.max (s_S s0 + s_npre s0) (dec_end b)).
+    { unfold s_A, s_end, s'. cbn [s_S s_npre s_nsamp s_G]. rewrite Hdec, zlen_app. unfold s_end. lia. }
+    split.
+    + cbn [s_ts s_S s_npre s_nsamp s_all s']. intros Hte k Hk Hck. rewrite HA' in Hk.
+      assert (Hck' : edge_crit b k = true).
+      { rewrite <- Hck. apply (edge_crit_ext (cur F0 sgn s') b []); try reflexivity.
+        - cbn. now symmetry.
+        - symmetry. apply app_nil_r.
+        - change (k - F0 < zlen (s_G s0 ++ seg_data sg)). rewrite zlen_app. unfold s_end in Hdec. lia. }
+      destruct (HEC Hte k ltac:(change (first_cand b) with (s_S s0 + s_npre s0); lia) Hck') as [t [Ht Hr]].
+      exists t. split; [exact Ht|exact Hr].
+    + cbn [s_ts s_S s_npre s_nsamp s_all s']. intros Hte k Hk Hck. rewrite HA' in Hk.
+      assert (Hck' : level_crit b k = true).
+      { rewrite <- Hck. apply (level_crit_ext (cur F0 sgn s') b []); try reflexivity.
+        - cbn. now symmetry.
+        - symmetry. apply app_nil_r.
+        - change (k - F0 < zlen (s_G s0 ++ seg_data sg)). rewrite zlen_app. unfold s_end in Hdec. lia. }
+      destruct (HLC Hte k ltac:(change (first_cand b) with (s_S s0 + s_npre s0); lia) Hck') as [t [Ht Hr]].
+      exists t. split; [exact Ht|exact Hr].
+  - intros s0 npre nsamp ts Hl. unfold s_A, s_end, new_epoch in *. cbn [s_S s_npre s_nsamp s_G s_ts] in *.
+    split; intros _ k Hk; lia.
+Qed.
+End CompleteInd.
+
+(* the checker's "true", whole-epoch form *)
+Lemma C02_check_sound_full npre nsamp ts F0 sgn h :
+  C02_check npre nsamp ts F0 h = true ->
+  exists bs, annotate F0 (init_sstate npre nsamp ts F0) h = Some bs /\
+    ((forall b, In b bs -> 0 <= bi_npre b <= bi_nsamp b /\ seg_signed (bi_seg b) = sgn) ->
+     forall b, In b bs ->
+       block_ok b /\
+       (only_edge b = true -> chain_ge (bi_nsamp b) (epoch_trigs b)) /\
+       (auto_free b = true -> gaps_le (auto_bound b) (first_cand b) (epoch_trigs b))).
+Proof.
+  intros H. destruct (C02_check_sound _ _ _ _ _ H) as [bs [Ha Hb]]. exists bs. split; [exact Ha|].
+  intros Hlens b Hin.
+  assert (Hcomp : edge_complete b /\ level_complete b).
+  { apply (complete_from_new F0 sgn _ _ _ Ha); [| |exact Hin].
+    - intros Hl. unfold s_A, s_end, init_sstate. cbn [s_S s_npre s_nsamp s_G]. change (zlen (@nil Z)) with 0.
+      cbn [s_npre s_nsamp init_sstate] in Hl. split; intros _ k Hk; lia.
+    - intros b' Hb'. destruct (Hb b' Hb') as [_ [H2 [H3 _]]]. split; [apply Hlens, Hb'|]. split; assumption. }
+  destruct (Hb b Hin) as [H1 [_ [_ [H4 H5]]]]. destruct Hcomp as [H2 H3].
+  split; [exact (conj H1 (conj H2 (conj H3 (conj H4 H5))))|]. split.
+  - apply (no_overlap_epoch F0 h _ bs Ha); [reflexivity| |exact Hin].
+    intros b' Hb'. destruct (Hb b' Hb') as [_ [_ [_ [Hx _]]]]. exact Hx.
+  - intros Haf. apply (auto_gap_epoch F0 h _ bs Ha); [reflexivity| |exact Hin|exact Haf].
+    intros b' Hb'. destruct (Hb b' Hb') as [_ [_ [_ [_ Hx]]]]. exact Hx.
+Qed.
+
+Lemma st_epoch_chains npre nsamp ts F0 period sgn ops :
+  0 <= F0 -> lengths_ok npre nsamp = true -> nsamp <= max_nsamp ->
+  contiguous F0 ops -> Forall (op_ok2 period sgn) ops ->
+  exists bs, annotate F0 (init_sstate npre nsamp ts F0) (combine ops (run (fresh_start npre nsamp ts) ops)) = Some bs /\
+    forall b, In b bs ->
+      (ts_edge (bi_ts b) = true -> ts_level (bi_ts b) = false -> ts_auto (bi_ts b) = false ->
+         chain_ge (bi_nsamp b) (epoch_trigs b)) /\
+      (ts_auto (bi_ts b) = true -> ts_autoveto (bi_ts b) <= 0 ->
+         gaps_le (auto_dly b + bi_nsamp b) (first_cand b) (epoch_trigs b)).
+Proof.
+  intros H0 Hl Hm Hc HQ.
+  destruct (model_blocks npre nsamp ts F0 period sgn ops H0 Hl Hm Hc HQ) as [bs [Ha Hb]].
+  exists bs. split; [exact Ha|]. intros b Hin. split.
+  - intros H1 H2 H3. apply (no_overlap_epoch F0 _ _ bs Ha); [reflexivity| |exact Hin|].
+    + intros b' Hb'. destruct (Hb b' Hb') as [_ [_ [_ [Hx _]]]]. exact Hx.
+    + unfold only_edge. now rewrite H1, H2, H3.
+  - intros H1 H2. apply (auto_gap_epoch F0 _ _ bs Ha); [reflexivity| |exact Hin|].
+    + intros b' Hb'. destruct (Hb b' Hb') as [_ [_ [_ [_ Hx]]]]. exact Hx.
+    + unfold auto_free. rewrite H1. lia.
+Qed.
